@@ -559,23 +559,29 @@ func c06Registration(r *core.Run, root []*ssa.Function, ro *muxRoles) {
 	}
 	// serve returns ValidateListeners' error first
 	for _, fn := range methodsOf(p, "", "Service") {
-		if fn.Name() != "serve" {
-			continue
-		}
+		// role: the (unexported) Service method that calls the exported ValidateListeners
 		var vl ssa.CallInstruction
 		for _, c := range core.Calls(fn) {
-			if cal := c.Common().StaticCallee(); cal != nil && cal.Name() == "ValidateListeners" {
+			if cal := c.Common().StaticCallee(); cal != nil && cal.Name() == "ValidateListeners" && cal != fn {
 				vl = c
 			}
 		}
+		if vl == nil || fn.Parent() != nil {
+			continue
+		}
 		good := false
-		if vl != nil {
-			for _, ret := range core.Returns(fn) {
-				if len(ret.Results) == 1 && ret.Results[0] == vl.Value() {
-					for _, ed := range dominatingEdges(ret) {
-						if strings.HasSuffix(describeCond(ed), "!=nil") {
-							good = true
-						}
+		for _, ret := range core.Returns(fn) {
+			if len(ret.Results) != 1 {
+				continue
+			}
+			// the error may be returned directly or through a result variable (single exit)
+			for _, src := range phiSources(ret.Results[0]) {
+				if src.V != vl.Value() {
+					continue
+				}
+				for _, ed := range srcEdges(ret, src) {
+					if strings.HasSuffix(describeCond(ed), "!=nil") {
+						good = true
 					}
 				}
 			}
